@@ -7,6 +7,7 @@ pub mod c04;
 pub mod c05;
 pub mod c06;
 pub mod c07;
+pub mod c08;
 pub mod c09;
 pub mod c10;
 pub mod c11;
@@ -27,6 +28,7 @@ pub fn get(id: &str, tier: Tier, seed: u64) -> Option<Prop> {
         "C05" => c05::prop(tier, seed),
         "C06" => c06::prop(tier, seed),
         "C07" => c07::prop(tier, seed),
+        "C08" => c08::prop(tier, seed),
         "C09" => c09::prop(tier, seed),
         "C10" => c10::prop(tier, seed),
         "C11" => c11::prop(tier, seed),
